@@ -100,7 +100,88 @@ fn gen_tree(p: &mut Pool, depth: usize) -> OptSpec {
     o
 }
 
+/// Chains of `adjacent` subcommands whose own items are all optional: a command given nothing of
+/// its own is entered all the same, what follows it (the next command of the chain, a word of the
+/// enclosing level) is judged by whoever declares it
+fn adjacent_commands_given_nothing(case: &mut Case) {
+    let mut rng = case.rng(11);
+    let cmd = |id: Id, name: &str, flag: &str| {
+        let mut opts = OptSpec::plain(Spec::Seq(vec![Spec::Item(Item {
+            id: id + 1,
+            names: Names::long(flag),
+            help: None,
+            leaf: Leaf::Switch,
+        })]));
+        opts.descr = Some(format!("D{}-descr", id));
+        Spec::Cmd(Box::new(CmdSpec {
+            id,
+            names: vec![name.to_string()],
+            shorts: vec![],
+            help: None,
+            adjacent: true,
+            opts,
+        }))
+    };
+    let chain = Spec::wrap(
+        W::Many { catch: false },
+        30,
+        Spec::Alt(vec![cmd(10, "build", "release"), cmd(20, "test", "quiet")]),
+    );
+    let with_word = rng.chance(1, 2);
+    let mut fields = vec![chain];
+    if with_word {
+        fields.push(Spec::wrap(
+            W::Optional { catch: false },
+            41,
+            Spec::Item(Item {
+                id: 40,
+                names: Names::default(),
+                help: None,
+                leaf: Leaf::Pos {
+                    ty: Ty::Str,
+                    metavar: "INPUT".into(),
+                    strict: Strict::Any,
+                },
+            }),
+        ));
+    }
+    let b = Bench::new(case, OptSpec::plain(Spec::Seq(fields)));
+    let mut argv: Vec<Vec<u8>> = Vec::new();
+    for _ in 0..rng.range(1, 3) {
+        let (name, flag) = if rng.chance(1, 2) {
+            ("build", "--release")
+        } else {
+            ("test", "--quiet")
+        };
+        argv.push(name.as_bytes().to_vec());
+        if rng.chance(1, 3) {
+            argv.push(flag.as_bytes().to_vec());
+        }
+    }
+    if with_word && rng.chance(1, 2) {
+        argv.push(b"input.txt".to_vec());
+    }
+    let (out, _) = b.run(case, &argv, "sentence:adjacent-commands-given-nothing");
+    if !matches!(out, Outcome::Value(_) | Outcome::Panic(_) | Outcome::FuelExhausted) {
+        case.rep.violation(
+            &format!("adjacent-command-given-nothing:{}", out.class()),
+            "sentence",
+            case.index,
+            b.detail(
+                &argv,
+                "sentence:adjacent-commands-given-nothing",
+                "a value (every command of the chain accepts what belongs to it)",
+                &out,
+            ),
+        );
+    }
+}
+
 pub fn run_case(case: &mut Case) {
+    if case.index % 24 == 5 {
+        adjacent_commands_given_nothing(case);
+        return;
+    }
     let mut rng = case.rng(0);
     let mut spec = {
         let mut p = Pool::new(&mut rng, GenOpts::conventional());
